@@ -165,6 +165,7 @@ FIBER_VARIANTS = {
                            lumped=[{'position': 40.0, 'loss': 0.5}, {'position': 90.0, 'loss': 1.5}]),
     'ssmf5': dict(type_variety='SSMF', length=5.0, loss_coef=0.25, lumped=[{'position': 2.0, 'loss': 2.0}]),
     'negdisp60': dict(type_variety='SSMF', length=60.0, loss_coef=0.21, lumped=[], extra={'dispersion': -8e-6}),
+    'slope75': dict(type_variety='SSMF', length=75.0, loss_coef=0.2, lumped=[], extra={'dispersion': 1.67e-5, 'dispersion_slope': 60.0}),
     # per-frequency loss table given in descending frequency order (ascending wavelength)
     'perfreq_desc70': dict(type_variety='SSMF', length=70.0, lumped=[{'position': 30.0, 'loss': 1.0}],
                            loss_coef={'frequency': [196.0e12, 194.0e12, 192.5e12, 191.0e12], 'value': [0.23, 0.2, 0.19, 0.21]}),
@@ -196,7 +197,7 @@ def h_fiber(ctx, variant, k, props, pmax=0.01, nli_method='gn_model_analytic'):
     fiber.params.att_in, fiber.params.con_in, fiber.params.con_out = att_in, con_in, con_out
     fiber.ref_pch_in_dbm = 0.0
     cd0 = [ctx.real(f'cd_in{i}', lo=0) for i in range(k)]
-    pmd0 = [ctx.real(f'pmd_in{i}', lo=0) for i in range(k)]
+    pmd0 = [ctx.real(f'pmd_in{i}', lo=0, hi=1e-10) for i in range(k)]
     lat0 = [ctx.real(f'lat_in{i}', lo=0) for i in range(k)]
     si = make_si(ctx, k, pmax=pmax, extra=dict(chromatic_dispersion=arr(cd0), pmd=arr(pmd0), latency=arr(lat0)))
     pre = snap(si)
